@@ -45,7 +45,7 @@ pub fn replay(case: &Value) -> Vec<Obs> {
 
 /// The knowledge base rule for rule (per predicate, in order), as structure: two rules that print alike
 /// but differ in what was parsed (an atom `5` for the integer 5) are different.
-fn structure(kb: &KnowledgeBase) -> std::collections::BTreeMap<String, Vec<String>> {
+pub fn structure(kb: &KnowledgeBase) -> std::collections::BTreeMap<String, Vec<String>> {
     let mut m = std::collections::BTreeMap::new();
     for (k, rules) in kb.iter() {
         m.insert(k.clone(), rules.iter().map(|r| format!("{} :- {}", serde_json::to_string(&crate::term::tm_to_json(&crate::term::project(&r.head))).unwrap(),
